@@ -234,14 +234,16 @@ def sessions(rng, prog, quick, family):
         order = list(ex)
         rng.shuffle(order)
         if quick and heavy:
-            # 200 executions per exhausting query: two exhausting methods, every asking METHOD once
+            # 200 executions per exhausting query (about a second): two exhausting methods, and
+            # get_signatures + three other asking methods chosen by the seed (thorough: all)
             order = order[:2]
-            seen, some = set(), []
+            sig = [p for p in pr if p[0] == 'get_signatures']
+            seen, some = {'get_signatures'}, []
             for p in rng.sample(pr, len(pr)):
                 if p[0].split(':')[0] not in seen:
                     seen.add(p[0].split(':')[0])
                     some.append(p)
-            pr = some
+            pr = sig + some[:3]
         for i, p in enumerate(pr):
             out.append([order[i % len(order)], p])
     else:
